@@ -53,7 +53,22 @@ class Spec:
         if o is tuple:
             if len(a) == 2 and a[1] is Ellipsis: return ('items', tuple, a[0])
             if a == () or a == ((),): return ('fixed', ())
-            return ('fixed', a)
+            # PEP 646: an unpacked fixed-length tuple child (`*tuple[A, B]` / Unpack[tuple[A, B]]) is spliced in place: still a fixed-length tuple
+            flat = []
+            def splice(args):
+                for c in args:
+                    inner = None
+                    if getattr(c, '__unpacked__', False) and t.get_origin(c) is tuple: inner = t.get_args(c)
+                    elif t.get_origin(c) is t.Unpack and t.get_origin(t.get_args(c)[0]) is tuple: inner = t.get_args(t.get_args(c)[0])
+                    if inner is None:
+                        if isinstance(c, t.TypeVarTuple) or t.get_origin(c) is t.Unpack or getattr(c, '__unpacked__', False):
+                            raise NotImplementedError(f'spec: variadic unpacking inside a tuple hint {h!r}')
+                        flat.append(c)
+                    elif len(inner) == 2 and inner[1] is Ellipsis: raise NotImplementedError(f'spec: unbounded unpacked tuple inside {h!r}')
+                    elif inner == ((),): pass
+                    else: splice(inner)
+            splice(a)
+            return ('fixed', tuple(flat))
         if o is collections.Counter: return ('mapping', o, a[0], int)
         if isinstance(o, type) and issubclass(o, cabc.ItemsView) and len(a) == 2: return ('items', o, tuple[a[0], a[1]])
         if isinstance(o, type) and issubclass(o, cabc.Mapping) and len(a) == 2: return ('mapping', o, a[0], a[1])
@@ -215,6 +230,57 @@ class Spec:
         if K == 'items': return 1 + self.read_bound(k[2], seen)
         if K == 'mapping': return 2 + self.read_bound(k[2], seen) + self.read_bound(k[3], seen)
         raise NotImplementedError(K)
+
+    # ---- C09: "at most one item, or one key and its value, per container nesting level reached"
+    def level_nodes(self, hs, seen=()):
+        """container nodes of the hints `hs` that apply DIRECTLY to their common subject (through aliases, unions, Annotated, generics)"""
+        out = []
+        for h in hs:
+            k = self.k(h); K = k[0]
+            if K == 'alias': out += self.level_nodes([k[1]], seen)
+            elif K == 'alias_override':
+                if h not in seen: out += self.level_nodes([k[1]], seen + (h,))
+            elif K == 'generic': out += self.level_nodes(list(k[2]), seen)
+            elif K == 'union': out += self.level_nodes(list(k[1]), seen)
+            elif K == 'annotated': out += self.level_nodes([k[1]], seen)
+            elif K in ('fixed', 'items', 'mapping'): out.append(k)
+        return out
+    def level_budget(self, hs, t, reads, depth=0):
+        """-> list of (container term, reads seen, reads allowed) for every level at which one evaluation read MORE than the container
+        nodes of the hint applying to that very object allow (one item per sequence/collection node, one key + one value per mapping
+        node, each position once per fixed-tuple node).  `reads` = the path's read events (kind, container, result, index)."""
+        nodes = self.level_nodes(hs)
+        mine = [e for e in reads if e[1].eq(t)]
+        over = []
+        n_item = sum(1 for k in nodes if k[0] == 'items'); n_map = sum(1 for k in nodes if k[0] == 'mapping'); fixed = [k for k in nodes if k[0] == 'fixed']
+        # positions of fixed tuples are read by constant index: each position once per fixed node having it
+        const_reads = {}; other = 0; key_reads = 0; val_reads = 0
+        for kind, _, res, idx in mine:
+            ci = None
+            if kind == 'item' and idx is not None:
+                si = z3.simplify(idx)
+                if z3.is_int_value(si): ci = si.as_long()
+            if ci is not None and any(len(k[1]) > ci >= 0 for k in fixed): const_reads[ci] = const_reads.get(ci, 0) + 1
+            elif kind == 'value': val_reads += 1
+            else: other += 1
+        for ci, c in const_reads.items():
+            allowed = sum(1 for k in fixed if len(k[1]) > ci)
+            if c > allowed: over.append((t, f'position {ci}: {c} reads', allowed))
+        if other > n_item + n_map: over.append((t, f'{other} item/key reads', n_item + n_map))
+        if val_reads > n_map: over.append((t, f'{val_reads} value reads', n_map))
+        if depth > 12: return over
+        done = []
+        for kind, _, res, idx in mine:
+            if any(res.eq(d) for d in done): continue
+            done.append(res); child = []
+            ci = None
+            if kind == 'item' and idx is not None and z3.is_int_value(z3.simplify(idx)): ci = z3.simplify(idx).as_long()
+            for k in nodes:
+                if k[0] == 'items' and kind in ('item', 'first'): child.append(k[2])
+                elif k[0] == 'mapping': child.append(k[3] if kind == 'value' else k[2])
+                elif k[0] == 'fixed' and ci is not None and 0 <= ci < len(k[1]): child.append(k[1][ci])
+            if child: over += self.level_budget(child, res, reads, depth + 1)
+        return over
 
     # ---- sequence positions reachable from the root without passing a sampled level (C02 reachability)
     def root_sequences(self, h, x, path=z3.BoolVal(True)):
